@@ -116,7 +116,11 @@ func checkStatement(src []byte, st Stream, comments bool) (sig, detail string) {
 		}
 		end, exact, checked := extentOf(src, t)
 		if checked && !exact {
-			return "text-mismatch:" + t.Kind, fmt.Sprintf("%s but source there is %q", t, clip(src, t.Off, t.Off+len(t.Lit)+2))
+			k := t.Kind
+			if k == "CSTRING" || k == "PYSTRING" {
+				k = "prefixed-string" // one root cause: the literal of c".." / py".." leaves the prefix out
+			}
+			return "text-mismatch:" + k, fmt.Sprintf("%s but source there is %q", t, clip(src, t.Off, t.Off+len(t.Lit)+2))
 		}
 		if !t.Auto {
 			if t.Off <= prevExtOff {
